@@ -83,12 +83,15 @@ def debug_logging():
     saved = [(root, root.level, root.disabled)] + [(logging.getLogger(n), logging.getLogger(n).level,
                                                    logging.getLogger(n).disabled) for n in names]
     root.addHandler(h)
+    disabled_below = logging.root.manager.disable      # an earlier logging.disable(...) would silence everything
+    logging.disable(logging.NOTSET)
     try:
         for lg, _, _ in saved:
             lg.setLevel(logging.DEBUG)
             lg.disabled = False
         yield buf
     finally:
+        logging.disable(disabled_below)
         root.removeHandler(h)
         for lg, lvl, dis in saved:
             lg.setLevel(lvl)
@@ -284,5 +287,13 @@ def where_differs(a, b, path=''):
 # ------------------------------------------------------------------------------------------- process-level state
 def class_level_digest():
     """digest of every module-level and class-level object of the package (mutable class constants, default tables):
-    must be the same before and after any operation on any model"""
+    must be the same before and after any operation on any model. The lazily imported sub-modules are imported
+    first, so that a later import is not mistaken for a change."""
+    core.repo_python_path()
+    import importlib
+    for name in ('uwg.readDOE', 'uwg.cli', 'uwg.cli.simulate', 'uwg.cli.validate'):
+        try:
+            importlib.import_module(name)
+        except Exception:  # noqa
+            pass
     return U.package_globals_digest()
